@@ -273,7 +273,11 @@ Definition chk_c06 (files : list ast) (impl sizes : sx) (probes : list probe) : 
                                            | None => false end) ms
             | None => false end);
        b2n (spec_c06 asm probes)]
-  | _ => [b2n (outcome_agree m impl); b2n (class_agree m impl); 1; 1; 1]
+  | _ =>
+      (* the model rejects: when the implementation accepted all the same, the Spec is still
+         evaluated on the implementation's own assumed sizes against the target layouts *)
+      [b2n (outcome_agree m impl); b2n (class_agree m impl); 1; 1;
+       b2n (if accepted_sx impl then spec_c06 (assumed_of_sx sizes) probes else true)]
   end.
 
 (* validation of Layout.v against the target compilers on arbitrary (also padded) structs:
